@@ -1,8 +1,9 @@
 (* C17 — parameter scopes: MappingPT that rebinds a loop index (i := scale * i + shift) around a sub-template.
    flatten false = what the template denotes (the mapping applies to every hold below it);
-   flatten true  = what LinSpaceBuilder sees: `inner_scope` overwrites the innermost loop index with a fresh
-                   SimpleExpression on every with_repetition entry, so a rebinding of the innermost index that is active
-                   at a RepetitionPT is undone for the repeated body (known finding index-rebinding-under-repetition). *)
+   flatten true  = what LinSpaceBuilder sees.  Until the repair of `index-rebinding-under-repetition` `inner_scope`
+                   overwrote the innermost loop index again on every with_repetition entry, which undid a rebinding of
+                   that index for the repeated body (`drop_innermost`, kept for the record); now only the frame of an
+                   iteration injects its index, like LoopBuilder.inner_scope, and both readings coincide. *)
 From Coq Require Import ZArith QArith List Bool.
 Require Import QV.C17.Model QV.C17.Spec.
 Import ListNotations.
@@ -37,7 +38,7 @@ Fixpoint flatten (impl : bool) (depth : nat) (subst : list (nat * (Q * Q))) (s :
   match s with
   | S2Hold d vs => SHold d (map (apply_subst subst) vs)
   | S2Seq l => SSeq ((fix go (l : list src2) : list src := match l with [] => [] | x :: l' => flatten impl depth subst x :: go l' end) l)
-  | S2Rep c b => SRep c (flatten impl depth (if impl then drop_innermost depth subst else subst) b)
+  | S2Rep c b => SRep c (flatten impl depth subst b)
   | S2Iter a b c body => SIter a b c (flatten impl (S depth) subst body)
   | S2Remap lvl sc sh body => flatten impl depth ((lvl, (sc, sh)) :: subst) body
   end.
